@@ -43,3 +43,50 @@ CHECKS["C03"] = dict(
     assumptions=["mdlayher/ndp MarshalMessage/ParseMessage are the wire codec", "DNS names well-formed, ≤3 names/servers per option (the statement's domain)"],
     parts=[dict(name="wire", pkg="internal/config", test="TestVerifC03", shards=S16)],
 )
+
+CHECKS["C13"] = dict(
+    level="exploration",
+    technique="runtime monitoring: set-semantics reference model vs Prefix.Apply over bounded-exhaustive permutations of an address pool plus random lists",
+    rule="all ordered selections of ≤3 (quick) / ≤4 (thorough) addresses from a 14-address pool (ULA/GUA/LL/IPv4, /48 /64 /128, each flag, two hosts per /64), each also with a duplicated entry, "
+         "plus seeded random lists of 1–40 addresses and the failing-source case; non-trivial = list of ≥2 addresses; distinct = the ordered list",
+    exhaustive={"quick": True, "thorough": True},
+    assumptions=["addresses are injected through Prefix.Addrs; the rtnetlink decoding of flags is exercised by tier R (thorough)"],
+    parts=[dict(name="prefix", pkg="internal/plugin", test="TestVerifC13", shards=S8)],
+)
+CHECKS["C14"] = dict(
+    level="exploration",
+    technique="runtime monitoring: total-order reference model (min of eligible set) vs RDNSS.Apply over bounded-exhaustive permutations plus random lists",
+    rule="all ordered selections of ≤3 (quick) / ≤4 (thorough) addresses from a 16-address pool covering class × stability source × exclusion flag, each also with a duplicate, "
+         "× 4 static server lists, plus random lists of 1–40 addresses; non-trivial = ≥2 addresses; distinct = ordered list",
+    exhaustive={"quick": True, "thorough": True},
+    assumptions=["a static server equal to the picked address is kept out of the workload (don't-care)"],
+    parts=[dict(name="rdnss", pkg="internal/plugin", test="TestVerifC14", shards=S8)],
+)
+CHECKS["C15"] = dict(
+    level="exploration",
+    technique="runtime monitoring: maximal-non-overlapping-set reference model vs Route.Apply over bounded-exhaustive permutations plus random dumps",
+    rule="all ordered selections of ≤3 (quick) / ≤4 (thorough) routes from a 16-route pool (nested prefixes with equal and different base addresses, /128s, ::/0, IPv4), each also with a duplicate, "
+         "plus random dumps of 1–30 routes; non-trivial = ≥2 routes; distinct = ordered list",
+    exhaustive={"quick": True, "thorough": True},
+    assumptions=["routes are injected through Route.Routes"],
+    parts=[dict(name="route", pkg="internal/plugin", test="TestVerifC15", shards=S8)],
+)
+CHECKS["C16"] = dict(
+    level="exploration",
+    technique="runtime monitoring: closed-form oracle remaining(t)=max(0,epoch+L−t) and monotonicity monitor over scripted non-decreasing clock sequences",
+    rule="seeded tuples (epoch, valid, preferred≤valid, route lifetime, deprecated) each observed along a sorted sequence of ≥15 clock readings placed 1 ns before, at and 1 ns after every deadline, "
+         "before the epoch, at it and 200 years later, with repeated readings; non-trivial = deprecated tuple whose sequence showed both a positive and a zero lifetime; distinct = the tuple",
+    assumptions=["the clock is injected through TimeNow; that Parse hands the epoch to the plugins is checked by C02; that main passes time.Now() is covered by tier R"],
+    parts=[dict(name="countdown", pkg="internal/plugin", test="TestVerifC16", shards=S8)],
+)
+
+CHECKS["C12"] = dict(
+    level="exploration",
+    technique="runtime monitoring: RFC 4861 §6.2.7 reference oracle vs verifyRAs over an exhaustive pairwise aspect grid and random RA pairs, received side always wire-decoded; trace monitor on a running advertiser",
+    rule="(1) 20 aspects (header fields and one option each) with values {absent, A, B} on both sides, every aspect alone (3×3) and crossed pairwise with every other aspect (81 combinations per pair) — exhaustive and "
+         "seed-independent; (2) seeded random RAs with 0–4 options of each kind, duplicates, a second MTU, unknown options, in both orders; (3) every random RA against its own wire round trip; the received RA is always "
+         "passed through MarshalMessage/ParseMessage; non-trivial = the specification expects ≥1 problem; distinct = pair identity",
+    exhaustive={"quick": False, "thorough": False},
+    assumptions=["field/details label vocabulary is taken from the implementation's metric labels", "hop limit 0 on either side is a don't-care region (RFC exempts it, the statement does not)"],
+    parts=[dict(name="verify", pkg="internal/corerad", test="TestVerifC12", shards=S16)],
+)
